@@ -258,7 +258,77 @@ def bounded_c07(tier, seed):
     return guarded(p, _check_c07, tier, seed)
 
 
-BOUNDED = [bounded_c07]
+_WRAP = {
+    "if": "if a > {n}:\n{body}",
+    "ifelse": "if a > {n}:\n{body}\nelse:\n    b += {n}",
+    "whiletrue": "while True:\n{body}",
+    "while": "while b < {n}:\n{body}\n    b += 1",
+    "for": "for i in xs:\n{body}",
+    "try": "try:\n{body}\nexcept ValueError:\n    b -= {n}",
+}
+_INNER = {
+    "return-if": "if a == 1:\n    return b",
+    "two-ifs": "if a == 1:\n    b += 1\nif b == 2:\n    a += 1",
+    "two-tries": ("try:\n    if a == 1:\n        return b\nexcept KeyError:\n    b = 0\n"
+                  "try:\n    if b == 2:\n        return a\nexcept KeyError:\n    a = 0"),
+    "two-tries-falling-through": ("try:\n    if a == 1:\n        b += 1\nexcept ValueError:\n    return 1\n"
+                                  "try:\n    if b == 2:\n        b -= 1\nexcept KeyError:\n    return 2"),
+    "two-withs": "with xs:\n    if a == 1:\n        b += 1\nwith xs:\n    while b > 7:\n        b -= 1",
+    "try-if-in-handler": "try:\n    b += 1\nexcept KeyError:\n    if a:\n        return 1",
+    "if-then-try": "if a == 3:\n    b += 2\ntry:\n    if b == 4:\n        a += 1\nfinally:\n    b += 1",
+}
+
+
+def _indent(text, by=4):
+    return "\n".join((" " * by + ln) if ln else ln for ln in text.split("\n"))
+
+
+def _nestings(tier):
+    depth = 3
+    for d in range(1, depth + 1):
+        for chain in itertools.product(_WRAP, repeat=d):
+            for iname, inner in _INNER.items():
+                body = inner
+                for n, w in enumerate(reversed(chain)):
+                    body = _WRAP[w].format(n=n + 1, body=_indent(body))
+                yield (chain, iname), "def f(a, b, xs):\n" + _indent(body) + "\n    return b\n"
+
+
+def _check_nestings(part: Part, tier, seed):
+    import random
+    cases = list(_nestings(tier))
+    if tier != "thorough":
+        # all chains of depth <= 2, and a seeded third of the depth-3 chains
+        rng = random.Random(seed)
+        cases = [c for c in cases if len(c[0][0]) <= 2] + rng.sample([c for c in cases if len(c[0][0]) == 3], 360)
+    for (chain, iname), text in cases:
+        part.case()
+        label = {"nesting(outer to inner)": list(chain), "innermost": iname}
+        try:
+            probs = goal_graph_problems(text, label)
+        except Exception as e:  # noqa: BLE001
+            part.error(f"{label}: {type(e).__name__}: {e}")
+            continue
+        for clause, cls, detail in probs:
+            part.violation(clause, cls + ":generated-nesting", {**detail, "source": text},
+                           target="pynguin.instrumentation.controlflow:ControlDependenceGraph.get_control_dependencies")
+
+
+def bounded_nestings(tier, seed):
+    p = Part("C07", "goal-graph-of-generated-nestings",
+             [f"{DY}:_BranchFitnessGraph._build_graph", f"{DY}:_GoalsManager.update",
+              "pynguin.instrumentation.controlflow:ControlDependenceGraph.get_control_dependencies",
+              "pynguin.instrumentation.controlflow:ControlDependenceGraph._retrieve_control_dependencies"],
+             scope="generated functions: every chain of <= 3 nested compound statements out of {if, if/else, while True, while, for, "
+                   "try/except} around each of 7 innermost bodies (a returning if, two ifs in a row, two try blocks in a row with a "
+                   "returning / a falling-through predicate each, two with blocks in a row, a predicate inside an except handler, an "
+                   "if followed by try/finally): 1806 functions (quick: all 294 of depth <= 2 and a seeded sample of 360 of depth 3); "
+                   "same four checks as for the hand-written modules",
+             bound="nesting depth <= 3, one function per module")
+    return guarded(p, _check_nestings, tier, seed)
+
+
+BOUNDED = [bounded_c07, bounded_nestings]
 META = {"rule": "obligations: one per contract clause/site of _GoalsManager.__init__/update; bounded part: one case per module variant"}
 
 
